@@ -526,7 +526,9 @@ def sensitivity(seed, runs):
     """the comparison must fail when the analysis is of another program: analysis of /repo, code of a mutant"""
     cases = [("tt2-narrow-handler", ["tt2.transceive"]), ("tt3-raise-wrong-class", ["tt3.send_cmd_recv_rsp"]),
              ("tt4-ispresent-narrow", ["tt4.is_present"]), ("llc-exchange-narrow", ["llc.exchange"]),
-             ("snep-serve-narrow", ["snep.server.serve"])]
+             ("snep-serve-narrow", ["snep.server.serve"]),
+             ("dep-retransmit-narrow", ["dep.Initiator.send_dep_req_recv_dep_res"]), ("sock-recv-epipe-narrow", ["tco.RAW.recv"]),
+             ("clients-handover-recv-unfixed", ["handover.client.recv_records"]), ("disc-clf-close-ioerror", ["clf.close"])]
     muts = {m[0]: m for m in MUTATIONS}
     bad = 0
     for name, fns in cases:
@@ -681,6 +683,48 @@ MUTATIONS = [
     ("sock-benign-refactor", "harmless edit (log line in bind): nothing may break", None,
      sub("llcp/llc.py", "            if self.terminated:\n                raise err.Error(errno.ESHUTDOWN)\n            self._bind(socket, addr_or_name)",
          "            if self.terminated:\n                raise err.Error(errno.ESHUTDOWN)\n            log.debug(\"bind\")\n            self._bind(socket, addr_or_name)")),
+    # ---- SNEP / handover clients (group clients)
+    ("clients-handover-recv-unfixed", "handler catches an unrelated class (the repaired findings handover-client-recv-ValueError/DecodeError)", "handover_client_escapes",
+     sub("handover/client.py", "            records = list(ndef.message_decoder(octets, 'relax'))\n        except (ndef.DecodeError, ValueError) as error:",
+         "            records = list(ndef.message_decoder(octets, 'relax'))\n        except KeyError as error:")),
+    ("clients-handover-octets-narrow", "narrow a class tuple (recv_octets: ValueError of an unknown record type)", "handover_client_no_ndef_error",
+     sub("handover/client.py", "            except (ndef.DecodeError, ValueError):\n                # ValueError is raised for an invalid record type\n                log.debug(\"message is incomplete",
+         "            except ndef.DecodeError:\n                # ValueError is raised for an invalid record type\n                log.debug(\"message is incomplete")),
+    ("clients-handover-encode-unhandled", "handler catches an unrelated class (send_records)", "handover_client_no_ndef_error",
+     sub("handover/client.py", "        except ndef.EncodeError as error:", "        except KeyError as error:")),
+    ("clients-snep-put-wrong-class", "raise another class (put_octets: response code)", "snep_client_escapes",
+     sub("snep/client.py", "                if response[1] != 0x81:\n                    raise SnepError(response[1])\n\n            return True",
+         "                if response[1] != 0x81:\n                    raise ValueError(response[1])\n\n            return True")),
+    ("clients-snep-return-in-finally", "add a return in finally (swallows SnepError and nfc.llcp.Error)", "snep_client_can_fail",
+     sub("snep/client.py", "            return True\n\n        finally:\n            if self.release_connection:\n                self.close()",
+         "            return True\n\n        finally:\n            if self.release_connection:\n                self.close()\n            return False")),
+    ("clients-snep-recv-new-raise", "new raise in a helper (recv_response: short fragment)", "snep_client_escapes",
+     sub("snep/client.py", "            log.debug(\"snep response initial fragment too short\")\n            return None",
+         "            log.debug(\"snep response initial fragment too short\")\n            raise IndexError(\"short\")")),
+    ("clients-benign-refactor", "harmless edit (log line in send_octets): nothing may break", None,
+     sub("handover/client.py", "        miu = self.socket.getsockopt(nfc.llcp.SO_SNDMIU)\n", "        miu = self.socket.getsockopt(nfc.llcp.SO_SNDMIU)\n        log.debug(\"miu\")\n")),
+    # ---- target discovery of the drivers, open / close, connect(llcp) (group discovery)
+    ("disc-rcs380-internal-commerror", "handler catches an unrelated class (RC-S380 listen_dep: driver-internal CommunicationError)", "rcs380_discovery_no_internal_commerror",
+     sub("clf/rcs380.py", "            except (CommunicationError) as error:\n                log.warning(str(error))\n                data = None",
+         "            except (IndexError) as error:\n                log.warning(str(error))\n                data = None")),
+    ("disc-clf-close-ioerror", "handler catches an unrelated class (ContactlessFrontend.close)", "clf_sense_absorbs_commerror",
+     sub("clf/__init__.py", "                    self.device.close()\n                except IOError:", "                    self.device.close()\n                except KeyError:")),
+    ("disc-clf-sense-commerror-narrow", "narrow a handler (sense: CommunicationError of a driver)", "clf_sense_absorbs_commerror",
+     sub("clf/__init__.py", "                    except CommunicationError as error:\n                        log.debug(error)\n                    else:",
+         "                    except TimeoutError as error:\n                        log.debug(error)\n                    else:")),
+    ("disc-pn53x-sense-wrong-class", "raise another class (pn53x sense_ttf: unsupported bit rate)", "pn53x_sense_escapes",
+     sub("clf/pn53x.py", "            self.log.warning(message)\n            raise ValueError(message)\n\n        if not self.chipset.read_register(\"CIU_TxControl\")",
+         "            self.log.warning(message)\n            raise KeyError(message)\n\n        if not self.chipset.read_register(\"CIU_TxControl\")")),
+    ("disc-udp-listen-dep-repaired", "wrap calls in a handler (a repair of the connect(llcp) defect: the witness becomes stale)", "clf_connect_llcp_commerror",
+     lambda root: [sub("clf/udp.py", "                self._send_data(brty, data, addr)\n                brty, data, addr = self._recv_data(wait, brty)\n                try:",
+                       "                try:\n                    self._send_data(brty, data, addr)\n                    brty, data, addr = self._recv_data(wait, brty)\n                except nfc.clf.CommunicationError:\n                    return None\n                try:")(root),
+                   sub("clf/udp.py", "                    self._send_data(brty, data, addr)\n                    brty = ('106A', '212F', '424F')[target.psl_req[3] >> 3 & 7]\n                    target.brty, data, addr = self._recv_data(wait, brty)",
+                       "                    try:\n                        self._send_data(brty, data, addr)\n                        brty = ('106A', '212F', '424F')[target.psl_req[3] >> 3 & 7]\n                        target.brty, data, addr = self._recv_data(wait, brty)\n                    except nfc.clf.CommunicationError:\n                        return None")(root)]),
+    ("disc-device-connect-wrong-class", "raise another class (device.connect: access denied)", "frontend_escapes",
+     sub("clf/device.py", "                        raise IOError(errno.EACCES, os.strerror(errno.EACCES))", "                        raise RuntimeError(os.strerror(errno.EACCES))")),
+    ("disc-benign-refactor", "harmless edit (log line in listen): nothing may break", None,
+     sub("clf/__init__.py", "            self.target = None  # forget captured target\n            self.device.mute()  # deactivate the rf field\n\n            info = \"listen %.3f seconds for %s\"",
+         "            self.target = None  # forget captured target\n            log.debug(\"mute\")\n            self.device.mute()  # deactivate the rf field\n\n            info = \"listen %.3f seconds for %s\"")),
     ("benign-refactor", "harmless edit (log line added, handler body reformatted): nothing may break", None,
      sub("tag/tt2.py", "                error = e\n                reason = error.__class__.__name__", "                error = e\n                log.debug(\"retry\")\n                reason = error.__class__.__name__", after="def transceive")),
 ]
